@@ -217,18 +217,22 @@ theorem commit_crash_atomic_planned (chk : Bool) (d : Disk) (v : View) (counts :
 
 /-! ### pack -/
 
-/-- **`pack()` is crash-atomic**, including the aborted "already optimally
-packed" run and the final `_clear_obsolete_packs()`. -/
-theorem pack_crash_atomic (chk : Bool) (d : Disk) (v : View) (optimal clean : Bool) (tmp1 new1 : Nat)
+/-- **`pack(hint)` is crash-atomic**, including the aborted "already optimally
+packed" run and the final `_clear_obsolete_packs()`; `s` = the packs selected
+by the hint, any sub-collection. -/
+theorem packSel_crash_atomic (chk : Bool) (d : Disk) (v : View) (s : List Nat) (optimal clean : Bool)
+    (tmp1 new1 : Nat)
     (hc : complete chk d = true)
     (hv : ∀ n ∈ v.names, n ∈ v.atLoad)
+    (hs : ∀ n ∈ s, n ∈ v.names)
     (h1 : new1 ∉ d.names) (h1v : new1 ∉ v.names) (k : Nat) :
-    let ops := packOps chk d v optimal clean tmp1 new1
+    let ops := packOpsSel chk d v s optimal clean tmp1 new1
     complete chk (run d (ops.take k)) = true ∧
     ((run d (ops.take k)).names = d.names ∨ (run d (ops.take k)).names = (run d ops).names) := by
   intro ops
   have hc' : ∀ n ∈ d.names, ready chk d n = true := by simpa [complete] using hc
   have hup : ∀ t b, (upTmp t b).dir = .upload := by intro t b; simp [upTmp]
+  have hcol : v.names.contains new1 = false := by simpa using h1v
   -- a save-shaped body followed by an arbitrary clear
   have key : ∀ (pre : List Op) (mine : List Nat) (s : List Nat) (tail : List Op),
       ops = pre ++ saveOps chk d ⟨mine, v.atLoad⟩ (some s) ++ tail →
@@ -283,11 +287,10 @@ theorem pack_crash_atomic (chk : Bool) (d : Disk) (v : View) (optimal clean : Bo
     · cases hop
     · exact clearOps_safe N _ _ op hop
   by_cases hdis : (!chk && decide (v.names.length ≤ 1)) = true
-  · have : ops = [] := by simp [ops, packOps, hdis]
+  · have : ops = [] := by simp [ops, packOpsSel, hdis]
     rw [this]; simp [run, hc]
-  · by_cases hemp : v.names.isEmpty = true
-    · have hnil : v.names = [] := List.isEmpty_iff.mp hemp
-      apply key [] v.names [] _ (by simp [ops, packOps, hdis, hemp]; rfl) (htail _)
+  · by_cases hemp : s.isEmpty = true
+    · apply key [] v.names [] _ (by simp [ops, packOpsSel, hdis, hemp]; rfl) (htail _)
       · intro op hop; cases hop
       · intro n hn; exact Or.inl (hv n hn)
       · intro n hn; cases hn
@@ -296,8 +299,8 @@ theorem pack_crash_atomic (chk : Bool) (d : Disk) (v : View) (optimal clean : Bo
         -- aborted: no pack-names replacement
         have hall : ∀ op ∈ ops, safeOp d.names op = true := by
           intro op hop
-          simp only [ops, packOps, hdis, hemp, Bool.false_eq_true, if_false, if_true, List.mem_append,
-            List.mem_cons, List.not_mem_nil, or_false] at hop
+          simp only [ops, packOpsSel, hdis, hemp, Bool.false_eq_true, if_false, if_true, List.mem_append,
+            List.mem_cons, List.not_mem_nil, or_false, Bool.not_true, Bool.and_false, Bool.false_and] at hop
           rcases hop with (rfl | rfl | rfl) | hop
           · simp [safeOp, upload_not_touches _ _ (hup tmp1 true)]
           · rfl
@@ -306,15 +309,38 @@ theorem pack_crash_atomic (chk : Bool) (d : Disk) (v : View) (optimal clean : Bo
         have h := safe_crash_atomic chk d ops hc hall k
         exact ⟨h.1, Or.inl h.2⟩
       | false =>
-        apply key (newPackOps chk (upTmp tmp1 true) new1) [new1] v.names _
-          (by simp [ops, packOps, hdis, hemp]; rfl) (htail _)
+        apply key (newPackOps chk (upTmp tmp1 true) new1)
+          (v.names.filter (fun n => !s.contains n) ++ [new1]) s _
+          (by simp [ops, packOpsSel, hdis, hemp, h1v]; rfl) (htail _)
         · exact newPackOps_safe chk d.names _ new1 (hup _ _) h1
         · intro n hn
-          simp only [List.mem_singleton] at hn
-          subst hn
-          exact Or.inr (finish_ready chk d _ n (hup _ _))
+          simp only [List.mem_append, List.mem_filter, List.mem_singleton] at hn
+          rcases hn with ⟨hn, _⟩ | rfl
+          · exact Or.inl (hv n hn)
+          · exact Or.inr (finish_ready chk d _ n (hup _ _))
         · intro n hn
-          exact ⟨by simp only [List.mem_singleton]; rintro rfl; exact h1v hn, hv n hn⟩
+          refine ⟨?_, hv n (hs n hn)⟩
+          simp only [List.mem_append, List.mem_filter, List.mem_singleton, not_or]
+          refine ⟨fun h => by simp [hn] at h, ?_⟩
+          rintro rfl
+          exact h1v (hs n hn)
+
+theorem hintSel_subset (v : View) (hint : Option (List Nat)) : ∀ n ∈ hintSel v hint, n ∈ v.names := by
+  intro n hn
+  cases hint with
+  | none => exact hn
+  | some h => exact (List.mem_filter.mp hn).1
+
+/-- **`pack()` / `pack(hint)` is crash-atomic.** -/
+theorem pack_crash_atomic (chk : Bool) (d : Disk) (v : View) (hint : Option (List Nat)) (optimal clean : Bool)
+    (tmp1 new1 : Nat)
+    (hc : complete chk d = true)
+    (hv : ∀ n ∈ v.names, n ∈ v.atLoad)
+    (h1 : new1 ∉ d.names) (h1v : new1 ∉ v.names) (k : Nat) :
+    let ops := packOps chk d v hint optimal clean tmp1 new1
+    complete chk (run d (ops.take k)) = true ∧
+    ((run d (ops.take k)).names = d.names ∨ (run d (ops.take k)).names = (run d ops).names) :=
+  packSel_crash_atomic chk d v (hintSel v hint) optimal clean tmp1 new1 hc hv (hintSel_subset v hint) h1 h1v k
 
 /-! ### what becomes visible -/
 
@@ -391,9 +417,15 @@ theorem autopack_visible (chk : Bool) (revsOf : Nat → List Nat) (d : Disk) (a 
 
 /-- final `pack-names` of a full `pack()` that wrote a new pack -/
 theorem pack_final_names (chk : Bool) (d : Disk) (v : View) (clean : Bool) (tmp1 new1 : Nat)
-    (hen : (!chk && decide (v.names.length ≤ 1)) = false) (hne : v.names.isEmpty = false) :
-    (run d (packOps chk d v false clean tmp1 new1)).names = mergeNames d.names v.atLoad [new1] := by
-  simp only [packOps, hen, hne, Bool.false_eq_true, if_false]
+    (hen : (!chk && decide (v.names.length ≤ 1)) = false) (hne : v.names.isEmpty = false)
+    (h1v : new1 ∉ v.names) :
+    (run d (packOps chk d v none false clean tmp1 new1)).names = mergeNames d.names v.atLoad [new1] := by
+  have hcol : v.names.contains new1 = false := by simpa using h1v
+  have hfil : v.names.filter (fun n => !v.names.contains n) = [] := by
+    apply List.filter_eq_nil_iff.mpr
+    intro n hn; simp [hn]
+  simp only [packOps, packOpsSel, hintSel, hen, hne, hcol, hfil, Bool.false_eq_true, if_false,
+    Bool.not_false, Bool.and_false, Bool.and_true, List.nil_append]
   rw [run_append]
   have : ∀ d0 : Disk, (run d0 (if clean = true then clearOps (run d
       (newPackOps chk (upTmp tmp1 true) new1 ++ saveOps chk d ⟨[new1], v.atLoad⟩ (some v.names))) [] else [])).names
@@ -410,9 +442,9 @@ theorem pack_visible (chk : Bool) (revsOf : Nat → List Nat) (d : Disk) (clean 
     (hen : (!chk && decide (d.names.length ≤ 1)) = false) (hne : d.names.isEmpty = false)
     (h1 : new1 ∉ d.names)
     (hcopy : ∀ r, r ∈ revsOf new1 ↔ ∃ n ∈ d.names, r ∈ revsOf n) (r : Nat) :
-    r ∈ visible revsOf (run d (packOps chk d ⟨d.names, d.names⟩ false clean tmp1 new1))
+    r ∈ visible revsOf (run d (packOps chk d ⟨d.names, d.names⟩ none false clean tmp1 new1))
       ↔ r ∈ visible revsOf d := by
-  rw [visible, pack_final_names chk d ⟨d.names, d.names⟩ clean tmp1 new1 hen hne]
+  rw [visible, pack_final_names chk d ⟨d.names, d.names⟩ clean tmp1 new1 hen hne h1]
   simp only [visible, List.mem_flatMap, mem_mergeNames, List.mem_singleton]
   constructor
   · rintro ⟨n, (⟨hd, _⟩ | ⟨rfl, _, _⟩), hr⟩
@@ -494,8 +526,20 @@ operation list is the long one (new pack, save, obsolete both, final clear) -/
 example :
     let d : Disk := ⟨[0, 1], packFiles false 0 ++ packFiles false 1, [], false⟩
     complete false d = true ∧ 5 ∉ d.names ∧
-    (run d (packOps false d ⟨[0, 1], [0, 1]⟩ false true 4 5)).names = [5] ∧
-    (packOps false d ⟨[0, 1], [0, 1]⟩ false true 4 5).length = 34 := by
+    (run d (packOps false d ⟨[0, 1], [0, 1]⟩ none false true 4 5)).names = [5] ∧
+    (packOps false d ⟨[0, 1], [0, 1]⟩ none false true 4 5).length = 34 ∧
+    (run d (packOps false d ⟨[0, 1], [0, 1]⟩ (some [1]) false false 4 5)).names = [0, 5] := by
+  decide
+
+/-- **Witness (real behaviour, pack-0.92).**  `pack(hint=[p])` on a pack whose
+repacked content hashes to its own name: `finish()` rewrites the indices of the
+LISTED pack `1` in place, so after 3 operations a listed pack is incomplete
+(then `allocate` raises "Pack already exists" and nothing is saved). -/
+theorem pack_hint_collision_witness :
+    let d : Disk := ⟨[0, 1], packFiles false 0 ++ packFiles false 1, [], false⟩
+    complete false d = true ∧
+    complete false (run d ((packOps false d ⟨[0, 1], [0, 1]⟩ (some [1]) false false 4 1).take 2)) = false ∧
+    (run d (packOps false d ⟨[0, 1], [0, 1]⟩ (some [1]) false false 4 1)).names = [0, 1] := by
   decide
 
 end BreezyVerif.C04
